@@ -248,9 +248,58 @@ static void run_stack_sweep(Stats& st, std::set<std::string>& reported) {
   }
 }
 
+
+// The two "scanning is too slow" advisories (per block: the rule set's first string has between YR_SLOW_STRING_MATCHES
+// and YR_MAX_STRING_MATCHES matches; per scan: an atom-less string and more than YR_FILE_SIZE_THRESHOLD bytes).
+// CONTINUE must change nothing, any other reply must give ERROR_TOO_SLOW_SCANNING, and the scanner stays usable.
+static void run_slow_warning(Stats& st, std::set<std::string>& reported) {
+  J rp = J::obj(); rp.set("engine", "sim_clock"); rp.set("mode", "limits"); rp.set("boundary", "@slow-warning");
+  const char* BY = "rule by1 { strings: $x = \"bystander\" condition: $x }\nrule by2 { strings: $y = /by[a-z]{3,9}er/ condition: #y == 1 }\nrule by3 { condition: filesize > 10 }\n";
+  struct K { const char* name; std::string rules, rules_without; std::string buf; bool expect_warning; };
+  std::vector<K> ks;
+  for (int n : {YR_SLOW_STRING_MATCHES - 1, YR_SLOW_STRING_MATCHES, YR_SLOW_STRING_MATCHES + 7, YR_MAX_STRING_MATCHES - 1}) {
+    std::string b = "a bystander "; for (int i = 0; i < n; i++) b += "ab";
+    ks.push_back({"first-string-slow", std::string("rule first { strings: $s = \"ab\" condition: #s > 0 }\n") + BY, BY, b, n >= YR_SLOW_STRING_MATCHES});
+  }
+  for (size_t sz : {(size_t) YR_FILE_SIZE_THRESHOLD, (size_t) YR_FILE_SIZE_THRESHOLD + 1}) {
+    std::string b(sz, 'q'); memcpy(&b[100], " a bystander ", 13);
+    ks.push_back({"atomless-string-large-buffer", std::string("rule first { strings: $s = /[0-9]{4}[a-z]{2}/ $t = { ?? ?? 4? ?1 ?? } condition: #s >= 0 and #t >= 0 }\n") + BY, BY, b, sz > YR_FILE_SIZE_THRESHOLD});
+  }
+  auto strip = [](const std::string& t) { std::string o; size_t p = 0; while (p < t.size()) { size_t e = t.find('\n', p); std::string l = t.substr(p, e - p + 1); p = e + 1; if (l.find("default:first") != std::string::npos) continue; o += l; } return o; };
+  for (auto& k : ks) {
+    YR_RULES* with = compile_simple(k.rules); YR_RULES* without = compile_simple(k.rules_without);
+    if (!with || !without) { emit_c15("harness", "limits|slow-warning|rules-do-not-compile", k.name, rp, reported, st); continue; }
+    Recorder ref; int rc0 = yr_rules_scan_mem(without, (const uint8_t*) k.buf.data(), k.buf.size(), 0, recorder_callback, &ref, 0);
+    for (int reply : {CALLBACK_CONTINUE, CALLBACK_ABORT, CALLBACK_ERROR}) {
+      std::string rn = reply == CALLBACK_CONTINUE ? "continue" : reply == CALLBACK_ABORT ? "abort" : "error";
+      YR_SCANNER* sc = NULL; yr_scanner_create(with, &sc);
+      Recorder rec; rec.too_slow_reply = reply; yr_scanner_set_callback(sc, recorder_callback, &rec);
+      HandlerState hs0 = handler_state();
+      int rc = yr_scanner_scan_mem(sc, (const uint8_t*) k.buf.data(), k.buf.size());
+      st.runs++; Hash64 h; h.add("slow"); h.add(k.name); h.addu(k.buf.size()); h.addu(reply); st.hash(h.h);
+      std::string at = std::string(k.name) + ", " + std::to_string(k.buf.size()) + " bytes, reply " + rn + ": ";
+      { std::string hd = handler_diff(hs0, handler_state()); if (!hd.empty()) emit_c15("unusable-after-limit", "limits|slow-warning|" + hd, at + hd, rp, reported, st); }
+      // when exactly the advisory fires is not specified (it depends on which automaton states are visited after the
+      // count is reached): its presence is counted, not asserted
+      st.c[std::string("probe.slow_warning.") + k.name + (rec.too_slow ? ".fired" : ".silent")]++; (void) k.expect_warning;
+      if (rec.too_slow) st.c["faults_fired.too_slow_warning_" + rn] += rec.too_slow;
+      if (!rec.too_slow || reply == CALLBACK_CONTINUE) {
+        if (rc != rc0 || rc != ERROR_SUCCESS) emit_c15("limit-warning", "limits|slow-warning|continue|rc=" + std::string(yr_error_name(rc)), at + "scan returned " + yr_error_name(rc), rp, reported, st);
+        else if (strip(rec.text) != strip(ref.text)) emit_c15("limit-hit-changes-bystanders", "limits|slow-warning|bystander-result-differs", at + "the other rules' results differ from a scan without the slow string", rp, reported, st);
+      } else if (rc != ERROR_TOO_SLOW_SCANNING) emit_c15("limit-warning", "limits|slow-warning|" + rn + "|rc=" + yr_error_name(rc), at + "scan returned " + std::string(yr_error_name(rc)) + " instead of TOO_SLOW_SCANNING", rp, reported, st);
+      // the same scanner afterwards against a fresh one
+      std::string small = "xx ab yy a bystander"; Recorder r2, r3; yr_scanner_set_callback(sc, recorder_callback, &r2); int rca = yr_scanner_scan_mem(sc, (const uint8_t*) small.data(), small.size()); yr_scanner_destroy(sc);
+      int rcb = yr_rules_scan_mem(with, (const uint8_t*) small.data(), small.size(), 0, recorder_callback, &r3, 0); st.runs++;
+      if (rca != rcb || r2.text != r3.text) emit_c15("limit-state-leaks", "limits|slow-warning|next-scan-differs", at + "the next scan on the same scanner differs from a fresh one", rp, reported, st);
+    }
+    yr_rules_destroy(with); yr_rules_destroy(without);
+  }
+}
+
 static void run_boundaries(Stats& st, std::set<std::string>& reported, const std::string& only = "") {
   if (only.empty() || only == "@scanner-after-limit") run_scanner_after_limit(st, reported);
   if (only.empty() || only == "@stack-sweep") run_stack_sweep(st, reported);
+  if (only.empty() || only == "@slow-warning") run_slow_warning(st, reported);
   if (!only.empty() && only[0] == '@') return;
   std::vector<Lim> lims;
   lims.push_back({"loop-nesting", YR_MAX_LOOP_NESTING, [](int n, int& e, int& le, int& rc) { std::string c = "true"; for (int i = n; i >= 1; i--) c = "for any v" + std::to_string(i) + " in (0..1) : ( " + c + " )"; e = compile_err("rule x { condition: " + c + " }", le); rc = 0; }, {ERROR_LOOP_NESTING_LIMIT_EXCEEDED}});
